@@ -292,3 +292,40 @@ package deps
 //@ trusted func builtin.closeLocal(c chan *res.work)
 //@   modifies ghost.chclosed
 //@   ensures chclosed == store(old(chclosed), ref(c), true)
+//@
+//@ # ---- res.QueryRequest as seen by the store query handler (C14): answers and events, counted
+//@ ghostvar qqans int
+//@ ghostvar qqevn int
+//@ trusted func (r res.QueryRequest) Error(err error)
+//@   modifies ghost.qqans
+//@   ensures qqans == old(qqans) + 1
+//@ trusted func (r res.QueryRequest) Model(model interface{})
+//@   modifies ghost.qqans
+//@   ensures qqans == old(qqans) + 1
+//@ trusted func (r res.QueryRequest) Collection(collection interface{})
+//@   modifies ghost.qqans
+//@   ensures qqans == old(qqans) + 1
+//@ trusted func (r res.QueryRequest) AddEvent(v interface{}, idx int)
+//@   modifies ghost.qqevn
+//@   ensures qqevn == old(qqevn) + 1
+//@ trusted func (r res.QueryRequest) RemoveEvent(idx int)
+//@   modifies ghost.qqevn
+//@   ensures qqevn == old(qqevn) + 1
+//@ trusted func (r res.QueryRequest) ChangeEvent(props map[string]interface{})
+//@   modifies ghost.qqevn
+//@   ensures qqevn == old(qqevn) + 1
+//@ trusted func (r res.QueryRequest) ResourceName() (s string)
+//@   ensures true
+//@ trusted func (r res.QueryRequest) PathParams() (m map[string]string)
+//@   ensures true
+//@ trusted func (r res.QueryRequest) ParseQuery() (q url.Values)
+//@   modifies alloc
+//@ trusted func (qs store.QueryStore) Query(q url.Values) (result interface{}, err error)
+//@   modifies alloc
+//@ trusted func (t store.QueryTransformer) TransformResult(v interface{}) (out interface{}, err error)
+//@   modifies alloc
+//@ # a query event is started on the resource (C15 covers what it does); nqev counts them
+//@ ghostvar nqev int
+//@ trusted func (r res.Resource) QueryEvent(cb func(res.QueryRequest))
+//@   modifies ghost.nqev, alloc
+//@   ensures nqev == old(nqev) + 1
